@@ -36,7 +36,7 @@ PROPS = {
         "verus": {
             "extractor": "extract.py",
             "baseline": "baseline_obligations.json",
-            "functions": ["name", "from", "assign", "assign_type", "id_to_option", "type_to_option", "id_to_box"],
+            "functions": ["name", "from", "assign", "assign_type", "id_to_option", "type_to_option", "id_to_box", "convert_ref_type_tail"],
             "rlimit_quick": 10, "rlimit_thorough": 30,
         },
         "functions": [
@@ -45,6 +45,7 @@ PROPS = {
             {"path": "typify-impl/src/lib.rs", "fn": "id_to_option"},
             {"path": "typify-impl/src/lib.rs", "fn": "type_to_option"},
             {"path": "typify-impl/src/lib.rs", "fn": "id_to_box"},
+            {"path": "typify-impl/src/lib.rs", "fn": "convert_ref_type"},
             {"path": "typify-impl/src/type_entry.rs", "fn": "name", "impl": r"^impl TypeEntry\b"},
             {"path": "typify-impl/src/type_entry.rs", "fn": "from", "impl": r"^impl From<TypeEntryDetails> for TypeEntry"},
         ],
